@@ -201,6 +201,30 @@ func ruleWrapCallsOnce(c *chk.Ctx) {
 			}
 		}
 		c.Check(ok, "PAIR.wrap", g, "output decoder returns the function's own values", g.Pos(), "every non-nil result is vals[k].Interface()", "an output decoder returns something other than the function's own result values")
+		// whether there is an error is decided by comparing the value with nil and by nothing else:
+		// a decoder that looks inside the value (its kind, its pointee) reclassifies some errors —
+		// a nil pointer of an error type is a non-nil error
+		peek := ""
+		scan := []*ssa.Function{g}
+		seenFn := map[*ssa.Function]bool{g: true}
+		for i := 0; i < len(scan) && i < 12; i++ {
+			ir.Calls(scan[i], func(ci ssa.CallInstruction) {
+				if ir.IsCallTo(ci.Common(), "(reflect.Value).Elem", "(reflect.Value).Kind", "(reflect.Value).IsZero", "(reflect.Value).IsValid") && peek == "" {
+					peek = c.P.Pos(ci.Pos())
+				}
+				// (private helpers the decoder hands a result value to are part of it)
+				if h := ci.Common().StaticCallee(); h != nil && c.P.InRepo[h] && !ir.Exported(h) && !seenFn[h] && inPkg(c, h, c.M.HandlerPkg) {
+					for _, a := range ci.Common().Args {
+						if strings.Contains(a.Type().String(), "reflect.Value") {
+							seenFn[h] = true
+							scan = append(scan, h)
+							break
+						}
+					}
+				}
+			})
+		}
+		c.Check(peek == "", "PAIR.wrap", g, "error presence decided by a nil test only", g.Pos(), "the output decoder does not look inside the function's result values", "an output decoder inspects the function's result beyond a nil test (at "+peek+"): an error value such as a nil pointer of an error type would be turned into \"no error\", so a failing call is answered as a success")
 	}
 	// D2: input decoders' errors are InvalidParams
 	ip, _ := pkgConstInt(c.M.Pkg, "InvalidParams")
@@ -1066,6 +1090,29 @@ func ruleStubsKeepStrictness(c *chk.Ctx) {
 		if target == nil {
 			continue
 		}
+		// a stub decodes into the value it wraps, as it is, or into locals of its own — never into
+		// something dug out of that value (its own decoder, e.g. a strict one, would be bypassed)
+		ir.Instrs(f, func(ins ssa.Instruction) {
+			call, ok := ins.(*ssa.Call)
+			if !ok {
+				return
+			}
+			var dst ssa.Value
+			switch {
+			case ir.IsCallTo(&call.Call, "encoding/json.Unmarshal"):
+				dst = call.Call.Args[1]
+			case ir.IsCallTo(&call.Call, "(*encoding/json.Decoder).Decode"):
+				dst = call.Call.Args[1]
+			default:
+				return
+			}
+			if mi, isMI := dst.(*ssa.MakeInterface); isMI {
+				dst = mi.X
+			}
+			if _, fv, isF := ir.FieldRead(dst); isF && fv != nil && fv != target {
+				c.Fail("WHO.strictstub", f, "stub decodes into the value it wraps", call.Pos(), "the stub decodes into a field of another value (%s) instead of the value it wraps: the wrapped value's own decoding (strict field checking) is bypassed for this form of the parameters", fv.Name())
+			}
+		})
 		ir.Instrs(f, func(ins ssa.Instruction) {
 			call, ok := ins.(*ssa.Call)
 			if !ok || !ir.IsCallTo(&call.Call, "encoding/json.Unmarshal") {
